@@ -15,6 +15,8 @@ let () =
     "compile", Xlang.cmd_compile;
     "dp", Xdp.cmd_dp;
     "ctlser", Xdp.cmd_ctlser;
+    "uids", Xconc.cmd_uids;
+    "transport", Xconc.cmd_transport;
   ]
 
 let () =
